@@ -25,9 +25,10 @@ The changes below were written by fresh sub-agents that were given only the text
 HEAD, the 45 tests still pass with it, its demonstration passes without it and fails with it. Then every quick check was
 run against the changed tree (harness built against the scratch worktree through cargo's `paths` override; `/repo` itself
 is never touched) and the checks that exited 1 with a `VIOLATION` line were recorded. At the end of batch 7 the
-check of each change's own property was run once more against it with the machinery of that time (all 116); for the other
+check of each change's own property was run once more against it with the machinery of that time (every change of batches 1-7; four of them - C07-7, C07-8, C11-8, C12-7 - were
+re-run in the following session, with the strengthenings made for them); for the other
 checks the table shows the outcome of the last full evaluation of that change (batches 5-8 were evaluated against their own
-property's check only). Batch 8 (34 changes, numbered 9-10, for C15 / C17 7-8) was evaluated once while it was being
+property's check only). Batch 8 (34 changes: the two highest numbers of every property) was evaluated once while it was being
 worked on; the 10 it missed at first were evaluated again after the strengthenings listed below. Each change is kept under
 `seeded/<property>-<n>/` (`patch.diff`, `demo.rs`, `meta.json` with the full per-check outcome).
 
